@@ -283,4 +283,52 @@ example : ∃ s s' : St, setTimer s 33000000 16500000 = .ok s' ∧ s.aaLimit = f
   ⟨{ aaLimit := false, s0 := { tl := some 0, sent := [{ pn := 0, ts := 0, elic := true, cc := true, size := 1200, st := PSt.I }] } },
    _, rfl, rfl, by decide⟩
 
+
+/-! ## FALSE of the unchanged code: the PTO backoff is forgotten whenever a client sends a Handshake packet -/
+
+/-- sending a packet never lowers `pto_count` (the backoff is reset by acknowledgements and by discarding keys only) -/
+def SendKeepsBackoff : Prop :=
+  ∀ (s s' : St) (i : Inp) (e pn : Nat) (elic infl : Bool) (size : Nat),
+    onPktSent s i e pn elic infl size = .ok s' → s.pto ≤ s'.pto
+
+/-- fixed case 5 of the harness: `ArcCC::on_pkt_sent` calls `discard_epoch(Initial)` — which sets
+`pto_count = 0` — on *every* Handshake packet a client sends, so a client whose Handshake packets go
+unanswered probes at a constant interval and never reaches `TooManyPtos` -/
+theorem send_keeps_backoff_fails : ¬ SendKeepsBackoff := by
+  intro h
+  have := h { pto := 3, aaLimit := false, hsKey := true }
+    ((onPktSent { pto := 3, aaLimit := false, hsKey := true } inp0 1 0 true true 300).toOption.getD {})
+    inp0 1 0 true true 300 rfl
+  revert this
+  decide
+
+theorem send_keeps_backoff_partial (s s' : St) (i : Inp) (e pn : Nat) (elic infl : Bool) (size : Nat)
+    (h : onPktSent s i e pn elic infl size = .ok s') (hne : s.server = true ∨ e ≠ 1) : s.pto ≤ s'.pto := by
+  have hsp : ∀ (x : St) (e : Nat) (sp : Space), (setSp x e sp).pto = x.pto ∧ (setSp x e sp).server = x.server := by
+    intro x e sp; unfold setSp; split <;> exact ⟨rfl, rfl⟩
+  unfold onPktSent at h
+  simp only [ebind_ok] at h
+  obtain ⟨s1, h1, h2⟩ := h
+  have k1 : s1.pto = s.pto ∧ s1.server = s.server := by
+    split at h1
+    · rw [setTimer_eq h1]
+      unfold sentInflight
+      exact hsp _ _ _
+    · cases h1; exact ⟨rfl, rfl⟩
+  have k2 := hsp s1 e { getSp s1 e with sent := (getSp s1 e).sent ++ [{ pn := pn, ts := s.now, elic := elic, cc := infl, size := size, st := PSt.I }] }
+  unfold pushPkt at h2
+  simp only at h2
+  split at h2
+  · rename_i hc
+    simp only [Bool.and_eq_true, beq_iff_eq, Bool.not_eq_true'] at hc
+    rw [k2.2, k1.2] at hc
+    rcases hne with hs | he
+    · rw [hs] at hc; cases hc.2
+    · exact absurd hc.1 he
+  · cases h2
+    rw [k2.1, k1.1]
+    exact Nat.le_refl _
+
+example : ∃ (s s' : St), onPktSent s inp0 2 0 true true 300 = .ok s' := ⟨{}, _, rfl⟩
+
 end GmQuic.Props.C13
